@@ -134,6 +134,9 @@ class _T2Driver:
 
     deferred = True
     receiver_attr = ""
+    # C01: any exception ends the run (every error is a violation).  C02/C07 reuse these drivers with
+    # stop_on_parse_error = False: a StreamProtocolParseError is then an ordinary outcome and receiving goes on.
+    stop_on_parse_error = True
 
     def __init__(self, protocol: Any, world: World, large: bool):
         self.protocol = protocol
@@ -168,6 +171,10 @@ class _T2Driver:
         if isinstance(exc, (Violation, HarnessError)):
             raise exc
         self._emit(_classify(exc))
+
+    def _go_on(self) -> bool:
+        """after _emit_exc: keep receiving? (only for parse errors, only when the reusing property asked for it)"""
+        return not self.stop_on_parse_error and self.out[-1][0] == "err"
 
     def _measure(self, endpoint: Any, lib: Any) -> None:
         try:
@@ -243,6 +250,8 @@ class SyncEndpointDriver(_T2Driver):
                             break
                         except BaseException as exc:  # noqa: BLE001
                             self._emit_exc(exc)
+                            if self._go_on():
+                                continue
                             ok = False
                             break
                         else:
@@ -261,6 +270,8 @@ class SyncEndpointDriver(_T2Driver):
                 return True
             except BaseException as exc:  # noqa: BLE001
                 self._emit_exc(exc)
+                if self._go_on():
+                    continue
                 return False
             else:
                 self._emit(("pkt", pkt))
@@ -303,6 +314,8 @@ class AsyncEndpointDriver(_T2Driver):
                         raise
                     except BaseException as exc:  # noqa: BLE001
                         self._emit_exc(exc)
+                        if self._go_on():
+                            continue
                         return False
                     else:
                         self._emit(("pkt", pkt))
